@@ -113,6 +113,10 @@ class YowNoiseLayer(YowLayer):
             )
             if not self._in_handshake():
                 logger.debug("Performing handshake [username= %d, passive=%s]" % (username, passive) )
+                # a worker of an earlier, cut off attempt may still be blocked reading the old queue; give this
+                # attempt its own stream and queue so that the server's reply cannot be taken by the stale worker
+                self._stream = BlockingQueueSegmentedStream()
+                self._incoming_segments_queue = Queue.Queue()
                 self._handshake_worker = WANoiseProtocolHandshakeWorker(
                     self._wa_noiseprotocol, self._stream, client_config, local_static, remote_static,
                     self.on_handshake_finished
